@@ -1212,7 +1212,7 @@ public:
                      DIdxSet* intVars  = nullptr)
    {
       bool ok;
-      char c;
+      char c = '\0';   // stays 0 when the stream is empty: get() does not assign anything then
 
       in.get(c);
       in.putback(c);
